@@ -42,6 +42,10 @@ func c10Kinds(r *Run) []string {
 }
 
 func scenC10(r *Run) {
+	if _, forced := r.Opt["kind"]; (r.Index%16 == 7 && !forced) || r.Opt["mode"] == "ws-close-frame" {
+		c10WSCloseFrame(r)
+		return
+	}
 	kinds := c10Kinds(r)
 	kind := kinds[r.Plan(len(kinds))]
 	mode := r.PlanOf("loss", "loss", "silence")
